@@ -14,12 +14,21 @@ import (
 	"verif/harness/mon"
 	. "verif/harness/pqlref"
 	"verif/harness/sqlmini"
+	"verif/harness/val"
 )
 
 // Case is a pipeline and the seeds of the instances to run it on.
 type Case struct {
 	Pipe      *Pipe   `json:"pipe"`
 	Instances []int64 `json:"instances"`
+	// Lets are let statements written before the pipeline (closed constants).
+	Lets []Let `json:"lets,omitempty"`
+}
+
+// Let is one let statement.
+type Let struct {
+	Name string `json:"name"`
+	X    *E     `json:"x"`
 }
 
 func toSQLDB(db map[string]*RTable) sqlmini.DB {
@@ -77,7 +86,22 @@ func InstallSplitObserver(w *mon.W) {
 // Check decides one case. prop is the property id for messages.
 func Check(c *Case, r *mon.R, what string) {
 	r.Case = c
-	prog := &Program{Stmts: []*Stmt{{Pipe: c.Pipe}}}
+	prog := &Program{}
+	scope := map[string]val.V{}
+	for _, l := range c.Lets {
+		n := l.Name
+		prog.Stmts = append(prog.Stmts, &Stmt{LetName: &Ident{Name: n}, LetX: l.X})
+		cur := map[string]val.V{}
+		for k, v := range scope {
+			cur[k] = v
+		}
+		scope[n] = Eval(StripParens(l.X), &EvalCtx{Row: Row{}, Bind: func(name string) (val.V, bool) { v, ok := cur[name]; return v, ok }})
+	}
+	var bind func(string) (val.V, bool)
+	if len(scope) > 0 {
+		bind = func(name string) (val.V, bool) { v, ok := scope[name]; return v, ok }
+	}
+	prog.Stmts = append(prog.Stmts, &Stmt{Pipe: c.Pipe})
 	src := Print(prog, Layout{Mode: 0}).Src
 	sql, err, o := mon.Compile(src, nil)
 	if o.Anomalous() {
@@ -101,7 +125,7 @@ func Check(c *Case, r *mon.R, what string) {
 	determined := 0
 	for _, seed := range c.Instances {
 		db := gen.DB(gen.RNG(seed, "db"))
-		rel, ierr := Interp(c.Pipe, db, nil)
+		rel, ierr := Interp(c.Pipe, db, bind)
 		if ierr != nil {
 			r.Count("instances_ill_typed", 1)
 			continue
